@@ -239,10 +239,70 @@ def copy_traits_case(case):
     return dict(reproduced=bool(violated), violated=violated[:8])
 
 
+def default_isolation_case(case):
+    """C10 (statement): the first read returns the declared default -- a fresh copy of a container default per instance --
+    later reads return the same object, and mutating one instance's default container changes nothing observable on
+    another instance, on a later instance or on the class."""
+    import traits.api as T
+    from traits.api import HasTraits
+    violated = []
+
+    class Pairs(T.TraitType):
+        default_value = [(0, 0)]
+    decls = {
+        "List(Int, [1, 2])": lambda: T.List(T.Int, [1, 2]), "Dict(Str, Int, {'a': 1})": lambda: T.Dict(T.Str, T.Int, {"a": 1}),
+        "Set(Int, {1})": lambda: T.Set(T.Int, {1}), "Any([1])": lambda: T.Any([1]), "Any({'k': 1})": lambda: T.Any({"k": 1}),
+        "Union(Any(['a']), None)": lambda: T.Union(T.Any(["a"]), None), "Union(Any({'k': 1}), Int)": lambda: T.Union(T.Any({"k": 1}), T.Int),
+        "Union(Pairs(), None)": lambda: T.Union(Pairs(), None), "Union(List(Int, [1]), None)": lambda: T.Union(T.List(T.Int, [1]), None),
+        "Either(List(Int), None) default list": lambda: T.Either(T.List(T.Int), None, default=[3]),
+        "Pairs()": lambda: Pairs(), "Tuple(List(Int), Int)": lambda: T.Tuple(T.List(T.Int), T.Int),
+    }
+
+    def mutate(v):
+        import copy
+        if isinstance(v, list):
+            v.append(v[0] if v else 9)
+        elif isinstance(v, dict):
+            v[next(iter(v), "z")] = 99 if isinstance(next(iter(v.values()), 0), int) else None
+            v.setdefault("extra" if all(isinstance(k, str) for k in v) else 12345, 5)
+        elif isinstance(v, set):
+            v.add(77)
+        elif isinstance(v, tuple) and v and isinstance(v[0], list):
+            v[0].append(4)
+        else:
+            return False
+        return True
+    import copy
+    for label, mk in decls.items():
+        try:
+            class A(HasTraits):
+                x = mk()
+            a, b = A(), A()
+            first = a.x
+            declared = copy.deepcopy(first)
+            if a.x is not first:
+                violated.append("%s: a second read returns another object" % label)
+            if not mutate(a.x):
+                continue
+            if b.x is first or (isinstance(first, tuple) and first and b.x[0] is first[0]):
+                violated.append("%s: two instances share the default object" % label)
+            if b.x != declared:
+                violated.append("%s: after mutating a's default, b reads %r (declared %r)" % (label, b.x, declared))
+            c = A()
+            if c.x != declared:
+                violated.append("%s: after mutating a's default, a NEW instance reads %r (declared %r)" % (label, c.x, declared))
+            d = A.class_traits()["x"].default_value_for(A(), "x")
+            if d != declared:
+                violated.append("%s: after mutating a's default, the class trait's default is %r (declared %r)" % (label, d, declared))
+        except Exception as e:
+            violated.append("%s: %s: %s" % (label, type(e).__name__, e))
+    return dict(reproduced=bool(violated), violated=violated[:8])
+
+
 def main():
     case = json.loads(sys.stdin.read())
     out = {"get_trait": get_trait_case, "clone": clone_case, "prefix_trait_unhashable": prefix_trait_unhashable_case,
-           "prefix_cache_inherited": prefix_cache_inherited_case, "copy_traits": copy_traits_case}[case["family"]](case)
+           "prefix_cache_inherited": prefix_cache_inherited_case, "copy_traits": copy_traits_case, "default_isolation": default_isolation_case}[case["family"]](case)
     print(json.dumps(out, default=repr))
 
 
